@@ -239,6 +239,18 @@ def placeholder_len(fn, obj):
     for (bb, tt, ft, c) in bool_switches(fn):
         if c.kind == "call" and c.d["term"].get("name") == "contains_key" and c.kids and peel(c.kids[0]) is obj:
             good.append((bb, tt))
+    # a successful keyed lookup in the same object implies the same
+    fv = vals(fn)
+    for b2, t2 in fn.calls():
+        if t2.get("name") in ("get", "get_key_value", "index"):
+            n2 = fv.call_node(b2)
+            if n2.kids and peel(n2.kids[0]) is obj:
+                if t2.get("name") == "index":
+                    if t2.get("target") is not None:
+                        good.append((b2, t2["target"]))
+                else:
+                    g, _ = success_edges(fn, n2)
+                    good.extend(g)
     out = {}
     for b, s in st.items():
         if good and guarded(fn, b, good):
